@@ -51,6 +51,7 @@ func runBatchHarness(r *ev.Run) {
 		"batch:fault-on-findmissing", "batch:fault-on-put", "batch:duplicate-put-while-pending",
 		"batch:blob-skipped-as-present", "batch:put-rejected-by-sticky-error",
 		"batch:recovery-after-reported-error", "batch:context-cancelled", "batch:flush-with-nothing-pending",
+		"batch:cancelled-after-findmissing-before-first-upload", "batch:cancelled-after-successful-upload-with-uploads-left",
 	} {
 		if r.ReplayFile() == "" {
 			r.Floor(s, 10)
@@ -68,7 +69,7 @@ func runBatchCase(r *ev.Run, ci int) {
 	faultAt, kind := 0, outkit.FaultNone
 	if rng.IntN(10) < 7 {
 		faultAt = 1 + rng.IntN(nOps)
-		kind = []outkit.FaultKind{outkit.FaultErrDiscard, outkit.FaultErrAfterRead, outkit.FaultSticky, outkit.FaultCancel}[rng.IntN(4)]
+		kind = []outkit.FaultKind{outkit.FaultErrDiscard, outkit.FaultErrAfterRead, outkit.FaultSticky, outkit.FaultCancel, outkit.FaultCancelAfter, outkit.FaultCancelAfter}[rng.IntN(6)]
 	}
 	r.Case("batch case %d size=%d conc=%d ops=%d fault=%s@%d", ci, batchSize, concurrency, nOps, kind, faultAt)
 
@@ -147,11 +148,11 @@ func runBatchCase(r *ev.Run, ci int) {
 					break
 				}
 			}
-			if errorReported && fresh == 0 && hadPending && kind != outkit.FaultSticky && kind != outkit.FaultCancel {
+			if errorReported && fresh == 0 && hadPending && kind != outkit.FaultSticky && kind != outkit.FaultCancel && kind != outkit.FaultCancelAfter {
 				situations["batch:recovery-after-reported-error"] = true
 			}
 		} else {
-			if fresh == 0 {
+			if fresh == 0 && ctx.Err() == nil {
 				violate("flush spurious-error", fmt.Sprintf("flush returned %v although no storage call failed since the previous flush", err))
 			}
 			errorReported = true
@@ -190,7 +191,7 @@ func runBatchCase(r *ev.Run, ci int) {
 			acked = append(acked, ack{blob})
 			putSinceFlush[blob] = true
 		} else {
-			if newFailures() == 0 {
+			if newFailures() == 0 && ctx.Err() == nil {
 				violate("put spurious-error", fmt.Sprintf("Put returned %v although no storage call has failed", err))
 			}
 			if plan.Count() == before {
@@ -209,7 +210,7 @@ func runBatchCase(r *ev.Run, ci int) {
 	// new (unless the storage is still failing).
 	err := flush(ctx)
 	ops = append(ops, batchOp{Op: "flush", Result: fmt.Sprint(err), Calls: plan.Count()})
-	if err != nil && newFailures() == 0 {
+	if err != nil && newFailures() == 0 && ctx.Err() == nil {
 		violate("flush error-reported-twice", fmt.Sprintf("a redundant flush returned %v although nothing failed since the previous flush", err))
 	}
 	checkClosers("at-end", true, nil)
@@ -234,6 +235,14 @@ func runBatchCase(r *ev.Run, ci int) {
 		}
 		if kind == outkit.FaultCancel {
 			situations["batch:context-cancelled"] = true
+		}
+		if kind == outkit.FaultCancelAfter {
+			switch {
+			case hit.Op == "FindMissing" && hit.Missing > 0:
+				situations["batch:cancelled-after-findmissing-before-first-upload"] = true
+			case hit.Op == "Put" && uploadsLeftInFlush(plan.Log(), hit.Seq) > 0:
+				situations["batch:cancelled-after-successful-upload-with-uploads-left"] = true
+			}
 		}
 	}
 	if cas.SkippedAny() {
